@@ -16,6 +16,19 @@ ASSUMPTIONS = ["Rust semantics of Vec/usize as modelled", "float accuracy of det
                "'matrix unchanged' is observed by the executor (snapshot before/after); a value model satisfies it vacuously"]
 UNPROVED = ["rounding accuracy of det/inverse over f64/Complex (covered by tie + search)"]
 
+MANIFEST = dict(
+    text=("Theorems over any field with a sane magnitude/order (all orders n, all entry values, singular input included) about the Gallina model "
+          "of src/matrix/solve.rs: lu_decomp always succeeds with P*M = unit_lower(LU)*upper(LU), P reached by `pivots` genuine row transpositions; "
+          "solve_lu and inverse, when they return, satisfy M*x = b and M*N = I; (mathcomp bridge) determinant = \\det for every fieldType. "
+          "The model is run against the implementation (Rat vs Qc exact; f64/Complex vs primitive floats) on orders 1..8 of dense, permutation-like, "
+          "triangular and singular (rank n-1, rank <= n-2, zero rows/columns) matrices, and an independent exact determinant / two-sided inverse "
+          "identity searches for a failing input; the operand is compared with a clone taken before the call."),
+    note=("Rounding accuracy over f64/Complex<f64> is tied and searched, not proved. 'Matrix unchanged' is a run-time observation of the executor "
+          "(a value model satisfies it vacuously). The theorems need PivLaws (abs x = 0 <-> x = 0, 0 < |x| for x <> 0, not |x| < 0): the code's "
+          "skip of a zero pivot column is decided by abs and >."),
+    technique="Coq proof over an abstract field (loop invariants of the in-place LU) + mathcomp bridge for \\det + model/implementation differential execution",
+    design="7 (C02)")
+
 def singular(rng, n, kind):
     one = Fraction(1)
     A = [c01.rval(rng) for _ in range(n * n)]
